@@ -7,10 +7,16 @@
 (* them).                                                                  *)
 (*                                                                         *)
 (* A case  C = [nodes |-> <<NodeRec ...>>, order |-> <<permutation>>]      *)
-(*   NodeRec = [kind, nskip, moved, site, psite, ssite]                    *)
+(*   NodeRec = [kind, nskip, moved, ren, host, site, psite, ssite]         *)
 (*     kind   alias | callback | function | record | enum | class          *)
 (*     nskip  the node carries a (skip) annotation                         *)
 (*     moved  (function) backwards-compatibility copy: has moved-to        *)
+(*     ren    (function) id of a class whose method set_p the function     *)
+(*            names in a (rename-to) annotation: another container; 0 none *)
+(*     host   (function) id of a record whose method the function is (its  *)
+(*            first C parameter is the record): MainTransformer moves it   *)
+(*            into the record, the walks then visit it at the record's     *)
+(*            position in the namespace, not at its own; 0 = top level     *)
 (*     site   alias: the target; callback/function: its one parameter or   *)
 (*            its return value; record: its one field; class: the second   *)
 (*            parameter of its method `set_p`, which is also the vfunc     *)
@@ -38,6 +44,15 @@
 (* (method.set_property set); dropped (internal_skipped: not written).     *)
 (***************************************************************************)
 EXTENDS IntrospectProp
+
+CONSTANTS
+    AliasRecheck,       \* TRUE: the code as it is (since /repo 8003e8e the two callable-analysis walks re-check
+                        \* aliases); FALSE: what-if variant without that re-check (the code before the fix)
+    CallableWalks,      \* 2: the code as it is (validate() walks _introspectable_callable_analysis twice);
+                        \* 1: what-if variant with a single walk
+    RenameScopeCheck    \* TRUE: the code as it is (since /repo 207651c MainTransformer._apply_annotation_rename_to
+                        \* refuses, with a warning, a target that is not a sibling); FALSE: what-if variant that
+                        \* writes shadows / shadowed-by across containers (the code before the fix)
 
 NoSite == [role |-> "none", cont |-> "none", tk |-> "fund", tgt |-> 0, xfer |-> TRUE, scope |-> FALSE, vskip |-> FALSE]
 Nm == <<"N1", "N2", "N3", "N4", "N5", "N6", "N7", "N8", "N9", "N10", "N11", "N12", "N13", "N14", "N15", "N16">>
@@ -105,20 +120,52 @@ Clr(st, f, n, cond) == IF cond THEN Set(st, f, n, FALSE) ELSE st
 \* members of a class (Class._walk: methods, virtual_methods, ..., signals, properties)
 WalkNames == <<"alias", "skips", "analyze", "callable1", "callable2", "property", "pass3", "backcompat", "collisions">>
 
+\* the callback of walk w applied to the callable (callback / function) n
+CallableVisit(w, g, st, n) ==
+    LET s == g[n].site IN
+    CASE w = "skips" ->           \* _propagate_callable_skips
+           IF TargetSkip(st, s) THEN Set(st, "skip", n, TRUE) ELSE st
+      [] w = "analyze" ->         \* _analyze_node
+           IF st.skip[n] THEN st ELSE Clr(st, "intro", n, PADemotes(g, s))
+      [] w \in {"callable1", "callable2"} ->     \* _introspectable_callable_analysis
+           IF st.skip[n] THEN st ELSE Clr(st, "intro", n, ~TypeIntro(st, s))
+      [] w = "backcompat" ->      \* _remove_non_reachable_backcompat_copies
+           IF st.skip[n] THEN st
+           ELSE IF g[n].kind = "function" /\ g[n].moved /\ ~st.intro[n] THEN Set(st, "dropped", n, TRUE) ELSE st
+      [] OTHER -> st
+
+\* Record._walk: the methods of record h (the functions hosted by it; at most two are followed, in id order).  The
+\* walk descends into them only when the callback returned True on the record: every callback but the two that
+\* always return True starts with "if obj.skip: return False"
+Hosted(g, h) == {m \in DOMAIN g : g[m].kind = "function" /\ g[m].host = h}
+MethodsVisit(w, g, st, h) ==
+    LET H == Hosted(g, h) IN
+    IF H = {} \/ (st.skip[h] /\ w \notin {"alias", "skips"}) THEN st
+    ELSE LET m1 == CHOOSE m \in H : \A k \in H : m <= k
+             a  == CallableVisit(w, g, st, m1)
+             R  == H \ {m1}
+         IN  IF R = {} THEN a ELSE CallableVisit(w, g, a, CHOOSE m \in R : \A k \in R : m <= k)
+
 Visit(w, g, st, n) ==
     LET k == g[n].kind  s == g[n].site  ps == g[n].psite  ss == g[n].ssite IN
+    IF w = "callable2" /\ CallableWalks < 2 THEN st
+    ELSE IF k = "function" /\ g[n].host # 0 THEN st          \* visited with its record, see MethodsVisit
+    ELSE IF IsCallable(k) THEN CallableVisit(w, g, st, n)
+    ELSE IF k = "record" THEN
+        MethodsVisit(w, g,
+            CASE w \in {"analyze", "pass3"} ->      \* _analyze_node / _introspectable_pass3: the field
+                   IF st.skip[n] THEN st ELSE Clr(st, "fintro", n, ~TypeIntro(st, s))
+              [] OTHER -> st, n)
+    ELSE
     CASE w = "alias" ->           \* _introspectable_alias_analysis (always returns True)
            Clr(st, "intro", n, k = "alias" /\ ~TypeIntro(st, s))
       [] w = "skips" ->           \* _propagate_callable_skips (always returns True)
-           IF IsCallable(k) THEN (IF TargetSkip(st, s) THEN Set(st, "skip", n, TRUE) ELSE st)
-           ELSE IF k = "class" THEN
+           IF k = "class" THEN
                LET a == IF TargetSkip(st, s) THEN Set(Set(st, "mskip", n, TRUE), "vskp", n, TRUE) ELSE st
                IN  IF TargetSkip(a, ss) THEN Set(a, "sskip", n, TRUE) ELSE a
            ELSE st
       [] w = "analyze" ->         \* _analyze_node
            IF st.skip[n] THEN st
-           ELSE IF IsCallable(k) THEN Clr(st, "intro", n, PADemotes(g, s))
-           ELSE IF k = "record" THEN Clr(st, "fintro", n, ~TypeIntro(st, s))
            ELSE IF k = "class" THEN
                LET a == Clr(st, "mintro", n, ~st.mskip[n] /\ PADemotes(g, s))
                    b == Clr(a, "vintro", n, ~a.vskp[n] /\ PADemotes(g, s))
@@ -126,7 +173,8 @@ Visit(w, g, st, n) ==
            ELSE st
       [] w \in {"callable1", "callable2"} ->     \* _introspectable_callable_analysis (walked twice)
            IF st.skip[n] THEN st
-           ELSE IF IsCallable(k) THEN Clr(st, "intro", n, ~TypeIntro(st, s))
+           \* /repo 8003e8e: "an alias whose target turned out not to be introspectable is not either"
+           ELSE IF k = "alias" THEN Clr(st, "intro", n, AliasRecheck /\ ~TypeIntro(st, s))
            ELSE IF k = "class" THEN
                LET a == Clr(st, "mintro", n, ~st.mskip[n] /\ ~TypeIntro(st, s))
                    b == Clr(a, "vintro", n, ~a.vskp[n] /\ ~TypeIntro(a, s))
@@ -138,13 +186,9 @@ Visit(w, g, st, n) ==
            ELSE Set(Set(Set(st, "pintro", n, FALSE), "setter", n, FALSE), "setprop", n, FALSE)
       [] w = "pass3" ->           \* _introspectable_pass3
            IF st.skip[n] THEN st
-           ELSE IF k = "record" THEN Clr(st, "fintro", n, ~TypeIntro(st, s))
            ELSE IF k = "class" THEN Clr(st, "sintro", n, ~st.sskip[n] /\ ~TypeIntro(st, ss))
            ELSE st
-      [] w = "backcompat" ->      \* _remove_non_reachable_backcompat_copies
-           IF st.skip[n] THEN st
-           ELSE IF k = "function" /\ g[n].moved /\ ~st.intro[n] THEN Set(st, "dropped", n, TRUE) ELSE st
-      [] OTHER -> st              \* _introspectable_symbol_collisions: diagnostics only
+      [] OTHER -> st              \* back-compat removal: functions only; _introspectable_symbol_collisions: diagnostics only
 
 \* namespace.walk(callback): the nodes in namespace order, each visit sees the effects of the earlier ones.
 \* Unrolled fold, at most 12 nodes, written as nested applications:
@@ -162,10 +206,15 @@ Walk(w, C, st) ==
     VisitAt(w, C.nodes, C.order, 6, VisitAt(w, C.nodes, C.order, 5, VisitAt(w, C.nodes, C.order, 4,
     VisitAt(w, C.nodes, C.order, 3, VisitAt(w, C.nodes, C.order, 2, VisitAt(w, C.nodes, C.order, 1, st))))))))))))
 
-\* IntrospectablePass.validate(): the nine walks in their real order
+\* IntrospectablePass.validate(): the nine walks in their real order.
+\* Each walk's result is bound by a set constructor: TLC evaluates the inner singleton completely before the
+\* outer body, so the Java stack never holds more than one walk (nested lazy parameters would make it hold
+\* all 9 x 12 visits: StackOverflowError), and there is still no LET chain for the cost model to expand.
 Run(C) ==
-    Walk(WalkNames[9], C, Walk(WalkNames[8], C, Walk(WalkNames[7], C, Walk(WalkNames[6], C, Walk(WalkNames[5], C,
-    Walk(WalkNames[4], C, Walk(WalkNames[3], C, Walk(WalkNames[2], C, Walk(WalkNames[1], C, InitSt(C.nodes))))))))))
+    CHOOSE r \in
+      {Walk(WalkNames[9], C, r8) : r8 \in {Walk(WalkNames[8], C, r7) : r7 \in {Walk(WalkNames[7], C, r6) : r6 \in
+      {Walk(WalkNames[6], C, r5) : r5 \in {Walk(WalkNames[5], C, r4) : r4 \in {Walk(WalkNames[4], C, r3) : r3 \in
+      {Walk(WalkNames[3], C, r2) : r2 \in {Walk(WalkNames[2], C, r1) : r1 \in {Walk(WalkNames[1], C, InitSt(C.nodes))}}}}}}}}} : TRUE
 
 ---------------------------------------------------------------------------
 \* GIRWriter: the abstract GIR of the final state (same record shapes as harness/c05proj.py emits)
@@ -199,7 +248,9 @@ NodeUses(g, st, n) ==
     LET k == g[n].kind  q == QName(n)  m == Marked(st, n) IN
     CASE k = "alias"    -> SiteUses(q, "alias", m, g[n].site)
       [] k = "callback" -> SiteUses(q, "callback", m, g[n].site)
-      [] k = "function" -> IF st.dropped[n] THEN <<>> ELSE SiteUses(q, "function", m, g[n].site)
+      [] k = "function" -> IF st.dropped[n] THEN <<>>
+                           ELSE IF g[n].host # 0 THEN SiteUses(q, "method", m \/ Marked(st, g[n].host), g[n].site)
+                           ELSE SiteUses(q, "function", m, g[n].site)
       [] k = "record"   -> SiteUses(FieldId[n], "field", m \/ ~st.fintro[n], g[n].site)
       [] k = "class"    -> SiteUses(MethId[n], "method", m \/ st.mskip[n] \/ ~st.mintro[n], g[n].site)
                            \o SiteUses(VfId[n], "virtual-method", m \/ st.vskp[n] \/ ~st.vintro[n], g[n].site)
@@ -213,9 +264,20 @@ NodeIdx(g, st, n) ==
       THEN << [id |-> QName(n), kind |-> "destroy", idx |-> 1, n |-> 2, marked |-> Marked(st, n)] >>
       ELSE <<>>
 
+\* the function whose (rename-to) names the method set_p of class c: a function can be shadowed once ("already
+\* shadowed by" refusal); with several candidates the first one wins (the configurations have one function)
+Renamer(g, c) == LET R == {m \in DOMAIN g : g[m].kind = "function" /\ g[m].ren = c} IN
+                 IF R = {} THEN 0 ELSE CHOOSE m \in R : \A k \in R : m <= k
+
 NodePairs(g, st, n) ==
     LET q == QName(n) IN
-    IF g[n].kind = "function" /\ ~st.dropped[n] THEN << P("fn", ModelNs, Nm[n], "function", "") >>
+    IF g[n].kind = "function" /\ ~st.dropped[n] /\ g[n].host # 0
+      THEN << P("fn", QName(g[n].host), Nm[n], "method", "") >>
+    ELSE IF g[n].kind = "function" /\ ~st.dropped[n]
+      THEN << P("fn", ModelNs, Nm[n], "function", "") >>
+           \* (rename-to <method of another container>): refused since /repo 207651c
+           \o (IF g[n].ren # 0 /\ ~RenameScopeCheck /\ Renamer(g, g[n].ren) = n
+                 THEN << P("fn", ModelNs, Nm[n], "shadows", "set_p") >> ELSE <<>>)
     ELSE IF g[n].kind # "class" THEN <<>>
     ELSE << P("typestruct", ModelNs, Nm[n], "type-struct", ClsNm[n]),
             P("typestruct", ModelNs, ClsNm[n], "is-gtype-struct-for", Nm[n]),
@@ -224,6 +286,8 @@ NodePairs(g, st, n) ==
             P("vfunc", q, "set_p", "invoker", "set_p") >>
          \o (IF st.setter[n] THEN << P("prop", q, "p", "setter", "set_p") >> ELSE <<>>)
          \o (IF st.setprop[n] THEN << P("fn", q, "set_p", "set-property", "p") >> ELSE <<>>)
+         \o (IF ~RenameScopeCheck /\ Renamer(g, n) # 0
+               THEN << P("fn", q, "set_p", "shadowed-by", Nm[Renamer(g, n)]) >> ELSE <<>>)
 
 RECURSIVE Cat(_, _, _, _)
 Cat(F(_, _, _), g, st, n) == IF n = 0 THEN <<>> ELSE Cat(F, g, st, n - 1) \o F(g, st, n)
@@ -234,7 +298,7 @@ NodeOf(g, q) == CHOOSE n \in DOMAIN g : QName(n) = q
 
 GirOf(C, st) ==
     LET g == C.nodes IN
-    [ns |-> ModelNs, avail |-> <<ModelNs, "GLib">>, partial |-> <<>>,
+    [ns |-> ModelNs, avail |-> <<ModelNs, "GLib">>, partial |-> <<>>, inferred |-> TRUE,
      defs |-> [q \in DefNames(g) |->
                  IF q \in ForeignDefs
                    THEN [kind |-> IF q = "GLib.DestroyNotify" THEN "callback" ELSE "record", intro |-> TRUE, target |-> ""]
@@ -246,5 +310,6 @@ GirOf(C, st) ==
      pairs |-> Cat(NodePairs, g, st, Len(g))]
 
 \* marks the model predicts for the top-level elements (compared with the real output: DRIFT)
-Marks(C, st) == [n \in DOMAIN C.nodes |-> [marked |-> Marked(st, n), dropped |-> st.dropped[n]]]
+Marks(C, st) == [n \in DOMAIN C.nodes |-> [marked |-> Marked(st, n) \/ (C.nodes[n].host # 0 /\ Marked(st, C.nodes[n].host)),
+                                           dropped |-> st.dropped[n]]]
 =============================================================================
